@@ -361,6 +361,11 @@ var c05Ops = []c05Op{
 	{">=", 1, -1, "cmp", 1, true}, {"=", 1, -1, "cmp", 1, true}, {"/=", 1, -1, "cmp", 1, true},
 	{"min", 1, -1, "cmp1", 1, false}, {"max", 1, -1, "cmp1", 1, false},
 	{"zerop", 1, 1, "cmp", 1, true}, {"plusp", 1, 1, "cmp", 1, true}, {"minusp", 1, 1, "cmp", 1, true},
+	// bit counting and testing, parity, sign, parts of a ratio, exact value of a float
+	{"logcount", 1, 1, "int", 1, false}, {"integer-length", 1, 1, "int", 1, false},
+	{"evenp", 1, 1, "int", 1, true}, {"oddp", 1, 1, "int", 1, true}, {"logbitp", 2, 2, "bitp", 1, true},
+	{"signum", 1, 1, "rat", 1, false}, {"numerator", 1, 1, "rat", 1, false}, {"denominator", 1, 1, "rat", 1, false},
+	{"rational", 1, 1, "real", 1, false},
 	// (incf place [delta]) / (decf place [delta]): the place is a variable holding the first operand
 	{"incf", 1, 2, "place", 1, false}, {"decf", 1, 2, "place", 1, false},
 	// slip.LessThan(a, b), the Go ordering helper of the root package (coerce.go), called directly
@@ -843,7 +848,7 @@ func runC05(c *lib.Ctx) {
 			for _, a := range unaryPool {
 				cases = append(cases, c05Case{op, []c05Operand{a}, true})
 			}
-			if op.isCmp() {
+			if op.isCmp() || op.domain == "real" {
 				for _, a := range floats {
 					cases = append(cases, c05Case{op, []c05Operand{a}, true})
 				}
@@ -861,6 +866,12 @@ func runC05(c *lib.Ctx) {
 				left, right = intPool, intPool
 			case "ash":
 				left, right = intPool, small
+			case "bitp":
+				// (logbitp index integer): indexes around the word and byte boundaries
+				for _, v := range []string{"0", "1", "2", "7", "8", "31", "32", "61", "62", "63", "64", "65", "66", "127", "128", "129", "200", "-1"} {
+					left = append(left, c05Int(v))
+				}
+				right = intPool
 			case "expt":
 				// bases: 0, ±1, ±2, ±3, ±2^31, two bignums, the first nine ratios
 				left = append(append(append([]c05Operand{}, grid[:9]...), c05Int("18446744073709551616"), c05Int("-18446744073709551617")), ratios[:9]...)
@@ -1005,7 +1016,7 @@ func runC05(c *lib.Ctx) {
 		bits := []int{8, 31, 33, 62, 63, 64, 65, 100, 200}[c.Rng.Intn(9)]
 		n := c.Rng.BigBits(bits)
 		switch dom {
-		case "int", "ash":
+		case "int", "ash", "bitp":
 			if c.Rng.Chance(15) {
 				return grid[c.Rng.Intn(len(grid))]
 			}
@@ -1076,6 +1087,12 @@ func runC05(c *lib.Ctx) {
 			switch {
 			case op.domain == "ash" && j == 1:
 				args = append(args, c05Big(big.NewInt(int64(c.Rng.Intn(300)-150))))
+			case op.domain == "bitp" && j == 0:
+				args = append(args, c05Big(big.NewInt(int64(c.Rng.Intn(260)))))
+			case op.domain == "real" && c.Rng.Chance(50):
+				args = append(args, floats[c.Rng.Intn(len(floats))])
+			case op.domain == "real":
+				args = append(args, randOperand("rat"))
 			case op.domain == "expt" && j == 1:
 				args = append(args, c05Big(big.NewInt(int64(c.Rng.Intn(24)-8))))
 			case op.domain == "expt":
